@@ -1,2 +1,78 @@
-(* C05 proofs: assembled from Proofs/C05_Codec.v and Proofs/C05_FS.v *)
+(* C05: facts that need a concrete hash function (the theorems of Proofs/C05_FS.v are generic in H):
+   the refutation of soundness when a data file is truncated WHILE a writer holds it open, and the
+   corollaries stated in Props/C05.v. *)
+From Coq Require Import List NArith ZArith Bool Arith Lia ZifyBool ZifyNat ZifyN.
+Import ListNotations.
 Require Import Verif.Model.C05_Types Verif.Model.C05_Codec Verif.Model.C05_FS.
+Require Import Verif.Proofs.C05_Codec Verif.Proofs.C05_FSLemmas Verif.Proofs.C05_FS.
+Open Scope N_scope.
+
+(* a hash function with exactly two values: collision-free on the single stored content [1;2;3] *)
+Definition x123 : list N := [1; 2; 3].
+Definition H2 (x : list N) : list N := if bytes_eqb x x123 then repeat 1 32 else repeat 2 32.
+Definition k5 : list N := repeat 5 32.
+
+Lemma H2_wf : forall x, wf_id (H2 x).
+Proof.
+  intro x. unfold H2. destruct (bytes_eqb x x123); (split; [reflexivity |]); repeat constructor.
+Qed.
+
+Lemma H2_cf : forall k, H_cf_on H2 [(k, x123)].
+Proof.
+  intros k x y Hx Hy. cbn in Hx. destruct Hx as [<- | []].
+  unfold H2 in Hy. rewrite list_eqb_N_refl in Hy.
+  destruct (bytes_eqb y x123) eqn:E; [apply bytes_eqb_eq; auto | discriminate].
+Qed.
+
+Definition c1 : choice := mkCh 1000 1700000000000000000 1 (FA []) false.
+
+(* one writer; the data file is truncated to 0 after two of its three bytes were written; the writer goes on,
+   commits; GetFile then returns the path of a full-size file whose content was never stored *)
+Definition refute_trace : list label :=
+  [LSpawn (OpPut k5 x123)] ++ repeat (LStep 0 c1) 4 ++ [LTruncAny (FD (H2 x123)) 0 1000] ++
+  repeat (LStep 0 c1) 8 ++ [LSpawn (OpGetFile k5)] ++ repeat (LStep 1 c1) 5.
+
+Definition refute_final : option state := Eval vm_compute in exec H2 init_state refute_trace.
+
+Theorem midwrite_truncate_refuted_proof :
+  exists (H : list N -> list N) (ls : list label) (s : state) (p : nat) (k o : list N) (sz : N) (y : list N),
+    (forall x, wf_id (H x)) /\ exec H init_state ls = Some s /\ H_cf_on H (st_stored s) /\
+    (* every label but one respects the premise; that one truncates a file held open by the writer *)
+    length (filter (fun l => negb (label_ok l)) ls) = 1%nat /\
+    nth_error (st_procs s) p = Some (PDone (RFile k o sz (Some y))) /\
+    ~ In (k, y) (st_stored s).
+Proof.
+  destruct refute_final as [s |] eqn:E; [| discriminate E].
+  exists H2, refute_trace, s, 1%nat, k5, (H2 x123), 3, [0; 0; 3].
+  unfold refute_final in E. inversion E; subst s. clear E.
+  split; [exact H2_wf |]. split; [vm_compute; reflexivity |].
+  split; [apply H2_cf |]. split; [reflexivity |]. split; [reflexivity |].
+  cbn [st_stored]. intros [Hin | []]. inversion Hin.
+Qed.
+
+(* ---- corollaries in the shape used by Props ---- *)
+Section Cor.
+Variable H : list N -> list N.
+Hypothesis H_wf : forall x, wf_id (H x).
+
+(* external truncation (no process holds the file) and removal of any cache file preserve the invariant *)
+Theorem trunc_delete_safe_proof : forall s p n now s',
+  Inv H s -> H_cf_on H (st_stored s) ->
+  (step H s (LTrunc p n now) = Some s' \/ step H s (LDelete p) = Some s') -> Inv H s'.
+Proof.
+  intros s p n now s' Hi Hcf [Hs | Hs].
+  - apply (inv_step_proof H H_wf s (LTrunc p n now) s' Hi eq_refl Hs). rewrite (step_stored H _ _ _ Hs). exact Hcf.
+  - apply (inv_step_proof H H_wf s (LDelete p) s' Hi eq_refl Hs). rewrite (step_stored H _ _ _ Hs). exact Hcf.
+Qed.
+
+(* whatever can be read at the path <H x>-d, at any time, is a prefix of x *)
+Theorem data_path_prefix_proof : forall s k x d,
+  Inv H s -> H_cf_on H (st_stored s) -> In (k, x) (st_stored s) ->
+  read_path (st_fs s) (FD (H x)) = Some d -> prefix d x.
+Proof.
+  intros s k x d (Hn & Hf & _) Hcf Hin Hr.
+  destruct (read_path_lookup _ _ _ Hr) as (j & f & Hl & Hg & Hd). subst d.
+  destruct (Hn _ _ Hl) as (f0 & Hf0 & Ho). assert (f0 = f) by congruence. subst f0.
+  eapply (dfile_prefix H); eauto. apply H_cf_inj. auto.
+Qed.
+End Cor.
